@@ -409,8 +409,9 @@ func init() {
 			{Name: "pool", N: func(c *Ctx) int { return len(c05Pool) * len(c05Pool) * len(c05Ops) }, Run: c05PoolRun, Exhaustive: true},
 			{Name: "random", N: func(c *Ctx) int { return tierN(c, 60000, 1500000) }, Run: c05Random},
 			{Name: "ladder", N: func(c *Ctx) int { return tierN(c, 400, 20000) }, Run: c05Ladder},
-			{Name: "long-sums", N: func(c *Ctx) int { return tierN(c, 600, 40000) }, Run: c05LongSums},
+			{Name: "long-sums", N: func(c *Ctx) int { return tierN(c, 600, 12000) }, Run: c05LongSums},
 			{Name: "long-number-texts", N: c05LongTextsN, Run: c05LongTexts, Exhaustive: true},
+			{Name: "rounding-neighbours", N: c05RoundingN, Run: c05Rounding, Exhaustive: true},
 		},
 	})
 }
@@ -431,7 +432,7 @@ func c05LongSums(c *Ctx, idx int) {
 	if idx%10 == 4 {
 		// block sizes of accumulation strategies: around 2^12, 2^13, 2^14, 2^16 and odd sizes between
 		n = gen.Pick(r, []int{4095, 4097, 8191, 8192, 8193, 8194, 10000, 16383, 16385, 20000, 32769, 40002, 65535, 65537, 70000})
-		if c.Tier == "thorough" && idx%100 == 4 {
+		if c.Tier == "thorough" && idx%2000 == 4 {
 			n = gen.Pick(r, []int{131073, 262145, 1000001})
 		}
 	}
@@ -596,6 +597,40 @@ func c05LongTexts(c *Ctx, idx int) {
 		l := c.LibSearch(x.expr, doc)
 		if l.Panic == nil && l.Err == nil && ShowOut(l) != x.want {
 			c.Report(Violation{Rule: "C05/long-number-text", Expr: x.expr, Data: "a = json.Number(" + desc + ")", Got: ShowOut(l), Want: x.want, Features: feats})
+		}
+	}
+}
+
+// c05Rounding: abs / ceil / floor / unary minus / // 1 / % 1 on the fractional neighbours of every
+// boundary of the shared pool (b - 0.5, b + 0.5, b +- 0.25, b + 0.000...1): results handed back as
+// machine integers wrap exactly where b +- 1 leaves the type.
+func c05RoundingN(c *Ctx) int { return len(c01NumB) }
+
+func c05Rounding(c *Ctx, idx int) {
+	b := c01NumB[idx]
+	if strings.ContainsAny(b, "eE") {
+		return
+	}
+	for _, off := range []string{".5", ".25", ".75", ".000000000001", ".999999999999"} {
+		for _, sign := range []string{"", "-"} {
+			t := b
+			if strings.Contains(t, ".") {
+				continue
+			}
+			t = strings.TrimPrefix(t, "-")
+			x := sign + t + off
+			if len(strings.NewReplacer("-", "", ".", "").Replace(x)) > 34 {
+				continue
+			}
+			doc := ref.NewObj()
+			doc.Set("a", gen.Num(x))
+			for _, text := range []string{"ceil(a)", "floor(a)", "abs(a)", "-a", "[ceil(a), floor(a)]", "ceil(a) - floor(a)", "floor(a) + `1` == ceil(a)", "ceil(`" + x + "`)", "floor(to_number('" + x + "'))", "ceil(a) > a", "floor(a) < a", "a // `1`", "ceil(a) == a // `1` + `1` || a < `0`", "sort([ceil(a), a, floor(a)])", "max([floor(a), a]) == a"} {
+				m := c05Check(c, text, doc, ref.JSONNumber, "json.Number")
+				c05Check(c, text, doc, decimalMode, "decimal128")
+				if !m.Unspec {
+					c.Nontrivial(text, x)
+				}
+			}
 		}
 	}
 }
